@@ -65,6 +65,14 @@ def composition_pool():
     out.append(("Array([Integer(), String()], additionalItems=False)", lambda: Array([Integer(), String()], additionalItems=False)))
     out.append(("Array([Integer()], additionalItems=String())", lambda: Array([Integer()], additionalItems=String())))
     out.append(("Array([Integer(), Plain], additionalItems=Null())", lambda: Array([Integer(), E._cls_plain()], additionalItems=Null())))
+    def twins():
+        a = Object.inline("Billing", properties={"b": Property(String(), required=True)})
+        b = Object.inline("Shipping", properties={"b": Property(String(), required=True)})
+        return a, b
+
+    out.append(("Array([Billing, Shipping], additionalItems=False)", lambda: Array(list(twins()), additionalItems=False)))
+    out.append(("Array([Array(Billing), Array(Shipping)], additionalItems=Null())", lambda: (lambda t: Array([Array(t[0]), Array(t[1])], additionalItems=Null()))(twins())))
+    out.append(("AnyOf(Array(Billing), Shipping)", lambda: (lambda t: AnyOf(Array(t[0]), t[1]))(twins())))
     out.append(("Array([])", lambda: Array([])))
     out.append(("Array([], additionalItems=False)", lambda: Array([], additionalItems=False)))
     out.append(("Array([Integer()], additionalItems=False)", lambda: Array([Integer()], additionalItems=False)))
@@ -109,7 +117,7 @@ def pool():
     return _POOL
 
 
-VALUES = VAL.V + VAL.V_OBJ
+VALUES = VAL.V + VAL.V_OBJ + [[{"b": "s"}, {"b": "t"}], [[{"b": "s"}], [{"b": "t"}]], [[{"b": "s"}], [{"b": "t"}], None], [{"b": "s"}]]
 
 
 # --------------------------------------------------------------------------- structural judge (ref/annot)
